@@ -23,6 +23,9 @@ SPEC = [
     (0x2012, "var", [(0, 0x07, "const", 0xCAFE)]),
     (0x2013, "var", [(0, 0x05, "rw", None)]),
     (0x2014, "var", [(0, DOM, "ro", b"abcdefghijk")]),
+    # entries of variable length that refuse a read: any byte string could be stored in them by mistake
+    (0x2015, "var", [(0, DOM, "wo", b"secret")]),
+    (0x2016, "var", [(0, VIS, "rw", None)]),
     (0x2020, "rec", [(0, 0x05, "ro", 4), (1, 0x06, "rw", 1), (2, 0x07, "ro", 2), (4, 0x05, "wo", 9),
                      (5, 0x04, "rw", None)]),
     (0x2030, "arr", [(0, 0x05, "ro", 2), (1, 0x03, "rw", -5), (2, 0x03, "rw", 6)]),
@@ -155,10 +158,14 @@ def _late_segment(cli, rig, before, tag, initiate=True):
     sx.reach("late-segment")
 
 
-def refuse_read(scope, pre="none"):
+def refuse_read(scope, pre="none", callback=False):
     rig = ServerRig(build_od())
     cli = RefClient(rig.deliver, "C06")
     _pre(cli, rig, pre)
+    if callback:
+        # the application supplies values through a read callback: that does not make a write-only entry
+        # readable, and it does give a value to entries that have none of their own
+        rig.node.add_read_callback(lambda index, subindex, od: 1 if od.data_type in S301.INT_TYPES else None)
     idx, sub = _addr(scope)
     before = rig.store_snapshot()
     res = cli.upload(idx, sub)
@@ -177,7 +184,7 @@ def refuse_read(scope, pre="none"):
         if acc == "wo":
             _expect_abort(res, (S301.ABORT_READ_WO,), idx, sub, tag + "/write-only")
             sx.reach("read-wo")
-        elif dv is None and not any(bool((idx == i) & (sub == s_)) for i, s_ in WRITTEN):
+        elif dv is None and not (callback and dt in S301.INT_TYPES) and not any(bool((idx == i) & (sub == s_)) for i, s_ in WRITTEN):
             _expect_abort(res, NO_VALUE_CODES, idx, sub, tag + "/no-value")
             sx.reach("read-no-value")
         else:
@@ -392,6 +399,8 @@ def jobs(tier):
     for pre in pres:
         for scope in ("var", "sub"):
             out.append(dict(func="refuse_read", params=dict(scope=scope, pre=pre), weight=20))
+            if pre in ("none", "open-download"):
+                out.append(dict(func="refuse_read", params=dict(scope=scope, pre=pre, callback=True), weight=20))
             for n in range(0, 10):
                 modes = ["seg-size", "seg-nosize"]
                 if 1 <= n <= 4:
